@@ -67,3 +67,17 @@ Proof.
   destruct (main_total e) as [fuel [cf [d E]]]. exists fuel, cf, d. split; [exact E|].
   apply (main_matches e fuel cf d E).
 Qed.
+
+(* general law (every expression, tags anywhere): the tags reported after a
+   string are the tags of the NFA states of `build e` reachable by it *)
+Theorem main_tags_reachable (e : regex) (fuel cf : nat) (d : dfa) :
+  compile fuel cf (build e) = Ok d ->
+  forall s k, bytes s -> transition_many d (dstart d) s = Ok (Some k) ->
+    exists i, info d k = Ok i /\
+      forall t, In t (dtags i) <-> exists q, RS (build e) s q /\ has_tag (build e) q t.
+Proof.
+  intros E s k Hb Hr.
+  destruct (compile_correct fuel cf (build e) d (build_keys e) E s Hb) as [r [Hr' Hm]].
+  rewrite Hr in Hr'. inversion Hr'; subst r.
+  destruct Hm as [i [Hi [_ [_ [Htags _]]]]]. exists i. split; [exact Hi|exact Htags].
+Qed.
